@@ -23,6 +23,7 @@ use roto::{List, NoCtx, Package, RotoString, Runtime, TypedFunc, Val, library};
 use vcore::{Cfg, Check, Cx, Finding, Meta, SUB_SETUP, Tier, Value, Violation, json};
 
 mod probes;
+mod registry;
 mod stack;
 
 const SCRIPT: &str = "\
@@ -564,6 +565,8 @@ fn run_program(p: &Program, bound: usize) -> (u64, u64, Vec<Failure>, usize) {
     (stats.schedules, stats.points, failures, outcomes.len())
 }
 
+const REG_PER_UNIT: usize = 64;
+
 struct C12;
 
 impl Check for C12 {
@@ -571,7 +574,7 @@ impl Check for C12 {
         "C12"
     }
     fn units(&self, cfg: &Cfg) -> usize {
-        all_programs(cfg.tier).len().div_ceil(PER_UNIT) + 2
+        all_programs(cfg.tier).len().div_ceil(PER_UNIT) + 2 + registry::histories(cfg.tier).len().div_ceil(REG_PER_UNIT)
     }
     fn case_timeout_s(&self, cfg: &Cfg) -> f64 {
         cfg.tier.pick(240.0, 600.0)
@@ -584,6 +587,39 @@ impl Check for C12 {
         let n_a = progs.len().div_ceil(PER_UNIT);
         if unit == n_a {
             probes::run(cx);
+            return;
+        }
+        if unit > n_a + 1 {
+            // Part D: registry histories over two threads (registry.rs)
+            if !cx.case(SUB_SETUP) {
+                return;
+            }
+            let hs = registry::histories(cx.cfg.tier);
+            let lo = (unit - n_a - 2) * REG_PER_UNIT;
+            let hi = (lo + REG_PER_UNIT).min(hs.len());
+            for i in lo..hi {
+                if !cx.case((i - lo) as u64) {
+                    continue;
+                }
+                let h = &hs[i];
+                cx.states(1);
+                cx.transitions(h.len() as u64);
+                cx.validated(1);
+                cx.count("part_d:histories", 1);
+                if h.iter().any(|(_, t)| *t == 1) {
+                    cx.nontrivial(vcore::util::fnv_str(&format!("{h:?}")));
+                }
+                match registry::run(h) {
+                    Ok(()) => cx.outcome(vcore::util::fnv_str(&format!("{:?}", registry::expected_of(h)))),
+                    Err((at, got)) => cx.violation(
+                        "thread-history-dependent",
+                        (i - lo) as u64,
+                        json!({"part": "D", "history (thread: operation)": registry::describe(h), "first_wrong_operation": if at == usize::MAX { json!(null) } else { json!(at) }}),
+                        json!({"answers": registry::expected_of(h)}),
+                        json!({"answer_of_first_wrong_operation": got}),
+                    ),
+                }
+            }
             return;
         }
         if unit == n_a + 1 {
@@ -658,6 +694,11 @@ impl Check for C12 {
         if unit == n_a {
             return probes::describe(sub);
         }
+        if unit > n_a + 1 {
+            let hs = registry::histories(cfg.tier);
+            let i = (unit - n_a - 2) * REG_PER_UNIT + sub as usize;
+            return json!({"part": "D", "history (thread: operation)": hs.get(i).map(registry::describe)});
+        }
         if unit == n_a + 1 {
             let sc = stack::scenarios();
             return json!({"part": "C", "scenario": sc.get(sub as usize).map(|s| format!("{s:?}")),
@@ -673,13 +714,14 @@ impl Check for C12 {
     }
     fn meta(&self, cfg: &Cfg) -> Meta {
         Meta {
-            rule: "Part A: all programs of the stated shapes over the operation menu (threads symmetric), each under all schedules up to the preemption bound; schedule points inside scripts (host call between reads and writes of locals / records / strings / tracked values / a shared list), at the type-registry lock and at list locks; non-trivial = more than one schedule. Part B: every (entry point that accepts user state) x (capture class) probe type-checked by rustc; wrongly accepted probes are run under the scheduler to exhibit the race. Part C: stack discipline on spawned threads: one call / a recursion of a script function with a 32 KiB .. 16 MiB frame on a 2 MiB thread next to four canary-filled thread stacks, in a forked copy of the worker: the call stays inside the caller's stack mapping or dies on the guard page".into(),
+            rule: "Part A: all programs of the stated shapes over the operation menu (threads symmetric), each under all schedules up to the preemption bound; schedule points inside scripts (host call between reads and writes of locals / records / strings / tracked values / a shared list), at the type-registry lock and at list locks; non-trivial = more than one schedule. Part B: every (entry point that accepts user state) x (capture class) probe type-checked by rustc; wrongly accepted probes are run under the scheduler to exhibit the race. Part C: stack discipline on spawned threads: one call / a recursion of a script function with a 32 KiB .. 16 MiB frame on a 2 MiB thread next to four canary-filled thread stacks, in a forked copy of the worker: the call stays inside the caller's stack mapping or dies on the guard page. Part D: all histories up to the length bound of {context type refused, get_function refused, register a host type, context type accepted, compile + get_function + call} x the one of two long-lived threads that executes each operation, each history in a forked copy of the worker in which the host type has never been mentioned: every operation answers as in the sequential model, whichever thread asked what before".into(),
             assumptions: vec![
                 "interleavings INSIDE compiled code between two schedule points are not explored: generated code only touches its own stack frame and read-only constants (argument from the code)".into(),
                 "sequentially consistent interleavings only (no weak-memory effects)".into(),
             ],
             bounds: json!({"shapes": shapes(cfg.tier).iter().map(|(t, o, m, b)| json!({"threads": t, "ops": o, "menu": m.iter().map(|x| format!("{x:?}")).collect::<Vec<_>>(), "preemption_bound": if *b == usize::MAX { json!("unbounded") } else { json!(b) }})).collect::<Vec<_>>(),
-                           "probes": probes::PROBES.len()}),
+                           "probes": probes::PROBES.len(),
+                           "part_d": {"max_history_length": registry::max_len(cfg.tier), "histories": registry::histories(cfg.tier).len(), "threads": 2}}),
             states_are: "complete schedules explored (Part A) + probes decided (Part B)".into(),
             transitions_are: "schedule points passed".into(),
         }
